@@ -1,8 +1,9 @@
 (* Executable driver of the WHOLE-TREE correspondence of the complete engine: decodes a case printed by `vh taffytree cases` (number of
    passes, the available space of each pass, then a tree of block / flex / grid containers and leaves in pre-order), runs
-   compute_root_layout + the memoised evaluation (Model/TaffyRoot.v `real_layout_passes` = `taffy_memo taffy_dispatch block_pre
-   abs_child_block taffy_leaf`: Model/Engine.v `memo` with the exact-key caches over Model/TaffyEngine.v `taffy_algo` -- the definitions
-   C05_taffy_engine_hidden_invisible, C06_taffy_engine_instance and the C01 engine theorems are about) over the bit-exact F32 instance,
+   compute_root_layout + the memoised evaluation (Model/TaffyRoot.v `real_layout_passes f32_seqb` = `taffy_memo f32_seqb taffy_dispatch
+   block_pre abs_child_block taffy_leaf`: Model/Engine.v `memo` with the exact-key caches -- key = every field of the LayoutInput,
+   numbers compared by representation (Model/TaffyKey.v: what the hook's Debug-string key does) -- over Model/TaffyEngine.v `taffy_algo`:
+   the definitions C05_taffy_engine_hidden_invisible, C06_taffy_engine_instance and C01_taffy_engine_* are about) over the bit-exact F32 instance,
    starting from a FRESH tree, once per pass on the same tree, and encodes every node's stored layout after every pass as the harness
    prints it after `R`: per pass, per node, pre-order,
    [order; x; y; w; h; content w; content h; scrollbar w; scrollbar h; border l r t b; padding l r t b; margin l r t b].
@@ -16,6 +17,7 @@ From Coq Require Import ZArith NArith Bool List.
 From TV Require Import Num.Num Num.F32 Model.Common Model.Leaf Gen.GridTracksGen Model.GridTracks.
 From TV Require Import Model.FlexAlgBase Model.BlockFlexEngine Model.GridAlgBase Model.GridAlg Model.TaffyEngine Model.TaffyRoot.
 From TV Require Model.GridAlgRun Model.FlexAlgRun Model.MeasureFamily Model.Engine Gen.FlexGen Model.Block Model.EngineRel.
+From TV Require Import Model.TaffyKey.
 Import ListNotations.
 Open Scope Z_scope.
 
@@ -136,7 +138,7 @@ Fixpoint taint (b : bool) (a : Engine.Alg (FIn f32) (LayoutOutput f32) (FLay f32
 Definition tainted_algo (s : TStyle f32) (st : list (TStyle f32)) (i : FIn f32) : Alg2 :=
   taint (node_panics s st i) (real_algo s st i).
 Definition tainted_memo :=
-  Engine.memo (TStyle f32) (FIn f32) (LayoutOutput f32 * bool) (FLay f32) qi_mode fin_eqb t_is_none (output_HIDDEN, false)
+  Engine.memo (TStyle f32) (FIn f32) (LayoutOutput f32 * bool) (FLay f32) qi_mode (fin_eqb_with f32_seqb) t_is_none (output_HIDDEN, false)
               (f_with_order 0) tainted_algo.
 Fixpoint tainted_passes (t : Engine.tree (TStyle f32) (FIn f32) (LayoutOutput f32 * bool) (FLay f32))
          (avails : list (Size (AvailableSpace f32))) : bool :=
@@ -155,7 +157,7 @@ Definition run_case (c : list Z) : list Z :=
       let '(avails, rest) := dec_avails (Z.to_nat np) rest0 in
       match dec_tree RUN_FUEL rest with
       | Some (t, []) =>
-          match real_layout_passes RUN_FUEL t avails with
+          match real_layout_passes f32_seqb RUN_FUEL t avails with
           | Some (lss, t') =>
               if cache_panics t' then [-3]
               else if may_panic t
